@@ -192,6 +192,10 @@ EX = [
     T('X3', 'Lb', 2, [add(k(0, 1)), add(j(0, 1)), union(k(0, 1), j(0, 1)), add(u(k(0, 1))), extract(u(k(0, 1)), 'Weighted'), extract(u(k(0, 1)))], note='class with two leaves of different weight below a parent (k first)'),
     T('X4', 'Lb', 2, [add(j(0, 1)), add(k(0, 1)), union(j(0, 1), k(0, 1)), add(u(k(0, 1))), extract(u(k(0, 1)), 'Weighted')], note='the same with the cheaper leaf inserted first'),
     T('X5', 'Lb', 2, [add(lam(0, app(var(0), var(1)))), add(var(1)), union(lam(0, app(var(0), var(1))), var(1)), extract(lam(0, app(var(0), var(1)))), extract(app(var(0), var(1)))], note='cyclic class under a binder: x = lam a. app(a, x)'),
+    T('X8', 'Lb', 2, [add(k(0, 1)), add(u(var(0))), union(k(0, 1), u(var(0))), extract(k(0, 1), 'Weighted'), extract(u(var(0)), 'Weighted'), extract(k(0, 1))],
+      note='the queried class itself contains a leaf that outweighs a composite member (k = 5 > u(var) = 2): the leaf is not the answer under the weighted cost, it is under AstSize'),
+    T('X9', 'Lb', 2, [add(j(0, 1)), add(app(j(0, 1), j(1, 0))), extract(app(j(0, 1), j(1, 0))), extract(app(j(0, 1), j(1, 0)), 'Weighted')], distinct=[[0, 1]],
+      note='the cheapest node mentions one non-symmetric class twice with the same slots in exchanged order: the two children are different terms'),
     T('X7', 'Lb', 2, [add(at(0, var(0))), add(at(1, var(1))), union(at(0, var(0)), at(1, var(1))), extract(at(0, var(0))), extract(at(1, var(1)), 'Weighted')],
       note='redundant slot that occurs in a slot field of the cheapest node and in its child: the extracted term must name it consistently'),
 ]
